@@ -417,6 +417,8 @@ def execute(trace, root):
                 detail = "module-name-collision" if uri in collide else None
                 flag("source-or-code", "%s on %s: Template.code is not this template's generated module (uri line %s, marker %s)"
                      % (uri, tag, info.get("code_uri"), info.get("code_marker")), detail)
+            if info.get("code_is_module_file") is False:
+                flag("source-or-code", "%s on %s: Template.code is not the text of the module file it was loaded from" % (uri, tag), "module-file-text")
             if info.get("list_defs") != ro["info"].get("list_defs") or info.get("has_def") != ro["info"].get("has_def"):
                 flag("defs-mismatch", "%s: list_defs/has_def on %s give %s/%s, on %s %s/%s" % (uri, rtag, ro["info"].get("list_defs"),
                                                                                              ro["info"].get("has_def"), tag, info.get("list_defs"), info.get("has_def")))
